@@ -234,6 +234,9 @@ func (m *model) apply(t *txMeta, rc *types.Receipt) {
 	if t.AccOut != nil {
 		m.credit(*t.AccOut, t.Token, t.AccAmount)
 	}
+	for _, a := range t.MoreAcc {
+		m.credit(a.To, t.Token, a.Amount)
+	}
 	// Known defect (adjusted model only): with rings of one the declared input amount is not bound to the spent commitment
 	if m.adjust && t.Op.Kind == "lie" && t.Inflation != nil && t.Inflation.Sign() > 0 && t.Ring <= 1 {
 		bump(m.knownDelta, t.Token, t.Inflation)
@@ -652,6 +655,14 @@ func (w *world) tamperSet(t *txMeta) []txkit.Tampered {
 			return true
 		})
 	}
+	addT("tokenid-switch", func(c *types.UTXOTransaction) bool { // same commitments under another token id: the fee term differs
+		if c.TokenID == coinTok {
+			c.TokenID = w.issuer
+		} else {
+			c.TokenID = coinTok
+		}
+		return true
+	})
 	if !(t.Token != coinTok && isAin) {
 		addT("fee+overflow", func(c *types.UTXOTransaction) bool { c.Fee = add(c.Fee, overflowAmount); return true })
 		if tx.Fee.Sign() > 0 {
